@@ -1,6 +1,6 @@
 # reg and TB_COMMON are injected by lib/props.py
 reg(id="C20",
-    gen=[],
+    gen=["globals"],
     model_targets=["C20/Corr.vo"],
     proof_targets=["Props/C20.vo"],
     props_file="Props/C20.v",
